@@ -117,6 +117,9 @@ func c18Free(c *h.Ctx) error {
 		switch mode {
 		case "nbns-udp", "nbns-server", "nbns-tcp":
 			err = freeNBNS(c, lg, mode, clients, per, seed+int64(round))
+			if mode == "nbns-tcp" && round == 0 {
+				tcpStopStorm(c, c.OptInt("stormrounds", 40), seed)
+			}
 		case "llmnr-server":
 			err = freeLLMNRServer(c, lg, clients, per, seed+int64(round))
 		case "llmnr-client":
@@ -409,6 +412,71 @@ func freeLLMNRServer(c *h.Ctx, lg *evLog, clients, per int, seed int64) error {
 		}
 	}, lg)
 	return nil
+}
+
+// tcpStopStorm: Stop "at any moment" includes the moment a connection has just been accepted and its handler has not run yet.
+// Rounds of: a fresh server, dialers opening idle connections as fast as they can, Stop at a random instant. Stop returns
+// promptly every time (an idle connection that escapes it would hold it for the 30 s read timeout).
+func tcpStopStorm(c *h.Ctx, rounds int, seed int64) {
+	rng := rand.New(rand.NewSource(seed*31 + 7))
+	for r := 0; r < rounds; r++ {
+		s, err := nbtns.NewTCPServer("127.0.0.1:0", nbtns.NewNetBIOSNameServer(false))
+		if err != nil {
+			return
+		}
+		if err := s.Start(); err != nil {
+			return
+		}
+		addr := s.VerifAddr().String()
+		stopDial := make(chan struct{})
+		var mu sync.Mutex
+		var conns []net.Conn
+		var wg sync.WaitGroup
+		for d := 0; d < 6; d++ {
+			wg.Add(1)
+			go func() {
+				defer wg.Done()
+				for {
+					select {
+					case <-stopDial:
+						return
+					default:
+					}
+					cn, err := net.DialTimeout("tcp", addr, 200*time.Millisecond)
+					if err != nil {
+						return
+					}
+					mu.Lock()
+					conns = append(conns, cn)
+					mu.Unlock()
+				}
+			}()
+		}
+		time.Sleep(time.Duration(200+rng.Intn(1800)) * time.Microsecond)
+		done := make(chan struct{})
+		t0 := time.Now()
+		go func() { s.Stop(); close(done) }()
+		hung := false
+		select {
+		case <-done:
+		case <-time.After(3 * time.Second):
+			hung = true
+		}
+		close(stopDial)
+		wg.Wait()
+		mu.Lock()
+		n := len(conns)
+		for _, cn := range conns {
+			cn.Close()
+		}
+		mu.Unlock()
+		c.Exec(1)
+		if hung {
+			c.Fail("nbtns.TCPServer.Stop", "stop-hang:connections-being-accepted", fmt.Sprintf("round %d: Stop had not returned 3 s after it was called while %d idle connections were being opened (elapsed %v)", r, n, time.Since(t0)), map[string]interface{}{"round": r, "connections": n})
+			<-done // the read timeout will release it; the idle connections were closed above
+			return
+		}
+	}
 }
 
 // llmnrLifecycles: Close is legal at any moment of a server's life -- before the socket exists, before Serve runs, twice. Whatever
